@@ -26,7 +26,12 @@ def e2e_tables(ctx):
                             dict(zone="Z", name="c", t_supply=50.0, t_target=150.0, heat_flow=150.0, dt_cont=5.0, htc=1.0)],
                    utilities=[]), dict(zones=1, shapes=["D4"], regime="none"))]     # D4 witness shape: dt_cont > 0, overlapping
     for _ in range(n):
-        probs.append(pc.gen_problem(ctx.rng, nmax=6))
+        prob, m = pc.gen_problem(ctx.rng, nmax=6)
+        if ctx.rng.random() < 0.3:
+            # the tables must not depend on which optional analyses run after them (some of those work on views of the table columns)
+            prob["options"] = {o: ctx.rng.random() < 0.6 for o in ("DO_VERTICAL_GCC", "DO_ASSITED_HT", "DO_BALANCED_CC", "DO_DIRECT_OPERATION_TARGETING")}
+            m = dict(m, shapes=m["shapes"] + ["options"])
+        probs.append((prob, m))
     for prob, m in probs:
         try:
             out, mz = pc.run_service(prob)
